@@ -338,7 +338,7 @@ impl Prop for C07 {
     fn id(&self) -> &'static str { "C07" }
     fn expected_counters(&self) -> Vec<&'static str> { vec!["probe.vtree_grew_with_live_diagrams", "probe.op_with_multiple_checkpoints", "fault.deadline_at_kth_checkpoint", "fault.node_budget"] }
     fn level(&self) -> &'static str { "fault_enumeration" }
-    fn budget(&self, tier: Tier) -> Budget { match tier { Tier::Quick => Budget { runs: 20_000, wall_s: 60, recheck: 40 }, Tier::Thorough => Budget { runs: 1_200_000, wall_s: 1200, recheck: 200 } } }
+    fn budget(&self, tier: Tier) -> Budget { match tier { Tier::Quick => Budget { runs: 20_000, wall_s: 60, recheck: 40 }, Tier::Thorough => Budget { runs: 1_200_000, wall_s: 1000, recheck: 200 } } }
     fn hash_seed(&self, c: &SddCase) -> u64 { c.hash_seed }
     fn gen(&self, seed: u64, index: u64, tier: Tier) -> SddCase {
         let mut r = Rng::sub(seed, "workload");
